@@ -14,7 +14,8 @@ SHARDS = {"quick": 4, "thorough": 12}
 TIMEOUT = {"quick": 400, "thorough": 3400}
 DECIDING = ["messages_compared", "hash_seeds", "value_lines_checked", "filtered_argument_checks"]
 RULE = (
-    "violated conditions from the C06 grammar (plus templates naming _ARGS/_KWARGS and all(...) over long strings) on functions that "
+    "violated conditions from the C06 grammar (plus templates naming _ARGS/_KWARGS and all(...) over long strings), given as lambdas or "
+    "(30%) as named functions, as preconditions or (30%) postconditions, on functions that "
     "additionally receive sets and frozensets of strings, dicts, a class, a function, a bound method, a module and a builtin as "
     "arguments, and values sized around the limits of icontract.aRepr (strings 250..260 characters, lists of 5..8 elements, nested) "
     "and of a user-supplied a_repr (instrumented reprlib.Repr subclass with small limits that logs every repr() request); half of "
@@ -107,7 +108,13 @@ def render(items: List[Dict[str, Any]]) -> str:
     out = [HEADER, exprs.SUPPORT, "\n"]
     for it in items:
         a_repr = ", a_repr=LOGREPR" if it["custom_repr"] else ""
-        out.append("@icontract.require(lambda {}: {}, description={!r}{})\n".format(", ".join(it["lam_params"]), it["expr"], "D:" + it["name"], a_repr))
+        role = it.get("role", "require")
+        if it.get("form", "lambda") == "def":
+            # a condition given as a named function: nothing is re-computed, the message lists the (representable) arguments
+            out.append("def cond_{}({}):\n    return {}\n\n".format(it["name"], ", ".join(it["lam_params"]), it["expr"]))
+            out.append("@icontract.{}(cond_{}, description={!r}{})\n".format(role, it["name"], "D:" + it["name"], a_repr))
+        else:
+            out.append("@icontract.{}(lambda {}: {}, description={!r}{})\n".format(role, ", ".join(it["lam_params"]), it["expr"], "D:" + it["name"], a_repr))
         out.append("def {}({}):\n    return None\n\n".format(it["name"], ", ".join(it["params"])))
     return "".join(out)
 
@@ -139,7 +146,8 @@ def run(w) -> None:
             if not lam:
                 continue
         items.append({"name": "f_{}_{}".format(w.shard, i), "expr": expr, "lam_params": lam, "params": params, "env": env,
-                      "custom_repr": rng.random() < 0.5})
+                      "custom_repr": rng.random() < 0.5, "form": "def" if rng.random() < 0.3 else "lambda",
+                      "role": "ensure" if rng.random() < 0.3 else "require"})
     source = render(items)
     scratch = w.scratch()
     path = os.path.join(scratch, "c20_generated_{}.py".format(w.shard))
@@ -209,7 +217,9 @@ def run(w) -> None:
     for call in calls:
         name = call["name"]
         it = by_name[name]
-        case = {"expr": it["expr"], "lam_params": it["lam_params"], "kwargs": call["kwargs"], "custom_repr": it["custom_repr"]}
+        case = {"expr": it["expr"], "lam_params": it["lam_params"], "kwargs": call["kwargs"], "custom_repr": it["custom_repr"],
+                "form": it["form"], "role": it["role"]}
+        w.count("conditions_{}_{}".format(it["form"], it["role"]))
         ref = None
         for hs, rep in reports.items():
             data = rep.get(name)
@@ -248,7 +258,9 @@ def run(w) -> None:
                     candidates.append(node.target.id)
         except Exception:  # pylint: disable=broad-except
             pass
-        candidates += it["params"] + ["_ARGS", "_KWARGS"]
+        if it["form"] == "def":
+            candidates = []  # only arguments can be listed
+        candidates += it["params"] + ["_ARGS", "_KWARGS", "result"]
         keys = []
         for part in parts:
             key, vstr = exprs.split_part_with_candidates(part, candidates)
